@@ -56,7 +56,25 @@ def _mk(h, fam, S):
 def h_construct(h):
     fam = FAMILIES[h.cfg["family"]]
     S = tuple(p for p in h.cfg["fixed"].split("+") if p)
-    d, fixed, start, theta = _mk(h, fam, S)
+    if h.cfg.get("also_plain"):
+        # documented: "If this parameter is set, <name> is ignored": f_<name> wins over <name>, in any keyword order
+        fixed = declare_params(h, fam, "f_", names=S)
+        plain = declare_params(h, fam, "s_")
+        for p in S:
+            h.distinct([fixed[p], plain[p]], 0.25)
+        kw = {}
+        if h.cfg["also_plain"] == "f-first":
+            kw.update({f"f_{p}": v for p, v in fixed.items()})
+            kw.update(plain)
+        else:
+            kw.update(plain)
+            kw.update({f"f_{p}": v for p, v in fixed.items()})
+        d = fam.make(**kw)
+        theta = dict(plain)
+        theta.update(fixed)
+        start = plain
+    else:
+        d, fixed, start, theta = _mk(h, fam, S)
     h.reach()
     for p in fam.params:
         h.close(d.parameters[p], theta[p], "value-from-construction")
@@ -129,6 +147,9 @@ def obligations(tier):
     for fname, fam in FAMILIES.items():
         for S in subsets(fam.params):
             yield ("construct", h_construct, {"family": fname, "fixed": "+".join(S)}, {})
+            if S:
+                for order in ("f-first", "f-last"):
+                    yield ("construct", h_construct, {"family": fname, "fixed": "+".join(S), "also_plain": order}, {})
             if 0 < len(S) < len(fam.params):
                 yield ("fit_mle", h_fit_mle, {"family": fname, "fixed": "+".join(S), "n": n}, {})
                 if tier == "thorough":
@@ -156,6 +177,7 @@ def obligations(tier):
         fam = FAMILIES[fname]
         for dep in subsets(fam.params):
             if 0 < len(dep) < len(fam.params) and not (fname == "LogNormalNormFit"):
-                yield ("conditional_fixed", c08.h_conditional,
-                       {"family": fname, "dependent": "+".join(dep), "method": "cdf", "given": "vec2",
-                        "shape": "linear"}, {})
+                for gk in ("vec2", "int", "intvec"):
+                    yield ("conditional_fixed", c08.h_conditional,
+                           {"family": fname, "dependent": "+".join(dep), "method": "cdf", "given": gk,
+                            "shape": "linear"}, {})
